@@ -12,3 +12,4 @@ EXTRA.update({
     "C16": {"technique": "symbolic execution + SMT: parametrised segments / symbolic triangles with all coordinates free; polygons: enumerated lattice polygons (bound on the polygon) x free real query point decided by z3 against a crossing-number oracle"},
     "C18": {"technique": "symbolic execution + SMT: one operand free reals, the other from an enumerated lattice family (segments/lines both free where the solver decides it); soundness, completeness per edge and duplicate freedom per path"},
 })
+CLAIMED.update({"C03": "DESIGN 4/C03"})
